@@ -967,3 +967,29 @@ def gen_case(rng, i, maxlen):
     else:
         raw = "x"
     return {"raw": raw, "lang": lang, "db": db, "kind": kind}
+
+
+# ---- documents for the tie of post_processors.remove_boilerplate (coq/C01/PassesPost.v): <div>s with every kind of class value (absent, stored
+# as int by parse_params, str without / with the substring 'boilerplate') at every depth and position, among other tags, text and block structure
+POST_DIV_ATTRS = ["", "", ' class=5', ' class="2024"', " class=' 7 '", ' class="5_0"', " class=٣", ' class="infobox"', ' class="boilerplate"',
+                  ' class="x boilerplate-y"', ' class="Boilerplate"', " id=5", ' style="class:5"', ' class="" id="boilerplate"', " class=boilerplate",
+                  ' class=5 class="boilerplate"', ' CLASS="boilerplate"', ' class="5 boilerplate"']
+
+
+def post_doc(rng, depth=0):
+    parts = []
+    for _ in range(rng.choice([1, 1, 2, 3, 4])):
+        k = rng.randrange(9)
+        if depth >= 4 or k <= 1:
+            parts.append(rng.choice(["x", "y z", "''i''", "[[A]]"]))
+        elif k <= 4:
+            parts.append("<div%s>%s%s" % (rng.choice(POST_DIV_ATTRS), post_doc(rng, depth + 1), "</div>" if rng.random() < 0.9 else ""))
+        elif k == 5:
+            parts.append("<%s%s>%s</%s>" % ((lambda t: (t, rng.choice(POST_DIV_ATTRS), post_doc(rng, depth + 1), t))(rng.choice(["span", "center", "b", "blockquote"]))))
+        elif k == 6:
+            parts.append("\n* %s\n* %s\n" % (post_doc(rng, depth + 2).replace("\n", " "), rng.choice(["b", "<div class=3>c</div>"])))
+        elif k == 7:
+            parts.append("\n{|\n|-\n|\n%s\n| %s\n|}\n" % (post_doc(rng, depth + 2), rng.choice(["c", "<div class='boilerplate'>d</div>"])))
+        else:
+            parts.append(rng.choice(["<ref>%s</ref>", "\n== h ==\n%s\n", "[[Image:x.jpg|thumb|%s]]", "\n\n%s\n\n"]) % post_doc(rng, depth + 2).replace("\n", " "))
+    return rng.choice(["", " ", "\n"]).join(parts)
